@@ -93,6 +93,24 @@ def St.offerExcluded (s : St) (reps : List Host) (fresh : Bool) : Bool :=
   (specHead s.t.pol.tier s.t.pol.maxTier s.up s.t.nonlocal reps).any (fun h =>
     (s.status h).last == some .hdown || (!(s.status h).known && !fresh))
 
+/-- (seventh round) status of the host's KEY (tier, address) and whether the object stands for its key, by the history -/
+def St.kstatus (s : St) (h : Host) : Status := keyStatus s.t.pol.key s.evs.reverse (s.t.pol.key h)
+def St.isOwner (s : St) (h : Host) : Bool := ownerOf s.t.pol.key s.evs.reverse (s.t.pol.key h) == some h
+
+/-- the excluded conditions of `C11_identity_history_exact_partial` (`offer` with two host objects on one address):
+counter region of KF-C11-3, a ghost key (KF-C11-4), unsettled concurrent calls, a replica table with a duplicate,
+a host of the specified replica head that is not the listed object of its key -/
+def St.aliasExcluded (s : St) (reps : List Host) : Bool :=
+  s.hot || !belowB s.t.pol ||
+  s.hosts.any (fun h => (s.kstatus h).ghost) ||
+  !s.taint.isEmpty ||
+  s.t.replicas.any (fun e => e.2.any (fun f => !nodupHosts f.2)) ||
+  (specHead s.t.pol.tier s.t.pol.maxTier s.up s.t.nonlocal reps).any (fun h => !s.isOwner h)
+
+/-- the SPECIFICATION's answer to `offer` with shared keys: the objects that stand for a key the history expects -/
+def St.specOfferAlias (s : St) : String :=
+  showNats (sortNat ((s.hosts.filter (fun h => expectedObj s.t.pol.key s.evs.reverse s.up h)).map (·.id)))
+
 /-- the SPECIFICATION's answer to `offer`: the ids of the defined hosts the history expects, sorted -/
 def St.specOffer (s : St) : String :=
   showNats (sortNat ((s.hosts.filter (fun h => (s.status h).expected (s.up h.id))).map (·.id)))
@@ -160,6 +178,7 @@ def checkList (name : String) (conf : Nat → Bool) (model pre obs : List Host) 
   kschg <ks>                                       KeyspaceChanged(<ks>)
   table <ks>                                       the replica table the policy holds for <ks> (none / empty / tok:ids ...)
   host <id> <addr> <dc> <rack> <tokens|->          define a HostInfo object (state UP)
+  hostp <id> <hostid> <addr> <port> <dc> <rack> <tokens|->   the same with an explicit host id and native port
   add|remove|hup|hdown <id>                        AddHost / RemoveHost / HostUp / HostDown → snapshot of the lists
   state <id> <1|0>                                 setState(NodeUp|NodeDown); ends the life of all iterators
   repl <ks> <tok>:<ids> ...                        install the replica table of a keyspace (hook)
@@ -202,6 +221,9 @@ def step (s : St) (ws : List String) : St × String :=
     let t' : TA := { s.t with pol := s.t.pol.setCtr (nat n) }
     (bump { s with t := t', hot := decide (nat n % 18446744073709551616 ≥ 9223372036854775808 - 4096) }, "ok")
   | ["host", id, addr, dc, rack, toks] =>
+    ({ s with hosts := ⟨nat id, nat addr, nat dc, nat rack, natList toks⟩ :: s.hosts.filter (fun h => h.id != nat id) }, "ok")
+  | ["hostp", id, _hid, addr, _port, dc, rack, toks] =>
+    -- host id and native port are not part of the model's `Host`: nothing in policies.go / `HostInfo.Equal` reads them
     ({ s with hosts := ⟨nat id, nat addr, nat dc, nat rack, natList toks⟩ :: s.hosts.filter (fun h => h.id != nat id) }, "ok")
   | ["race", _] => (s, "ok")   -- thorough tier: concurrent run on the real code (no panic, no nil host); nothing to model
   | ["offerit", slot] =>
@@ -277,6 +299,13 @@ def step (s : St) (ws : List String) : St × String :=
     let σ := applyPerm (parsePerms perms)
     let rk := parseRk ks tok
     let rf := s.repsOf σ rk
+    if s.alias then
+      -- two host objects on one address: the specification per list key (`C11_identity_history_exact_partial`)
+      if s.aliasExcluded rf.1 then (s, "excluded")
+      else
+        let (t', _) := s.t.pick s.up σ rk 1000
+        ({ s with t := t' }, s.specOfferAlias)
+    else
     if s.offerExcluded rf.1 rf.2 then (s, "excluded")
     else
       let (t', _) := s.t.pick s.up σ rk 1000
